@@ -156,8 +156,34 @@ def run_case(ctx, mr, case):
                 kw = dict(decrypted_titlekey=titlekey)
             ctx.stat('cdn_' + mode)
             tmdpath = (sub + '/' if sub else '') + 'tmd'
+            if case['backend'] == 'os' and not sub and rng.random() < 0.4:
+                # the same directory reached through a directory whose NAME contains a '$' (and an environment variable of that name
+                # exists, pointing elsewhere): an OS path is taken as it is spelled
+                os.makedirs(os.path.join(tmpdir, 'elsewhere'), exist_ok=True)
+                os.environ['PYCTR_C10_DIR'] = 'elsewhere'
+                odd = os.path.join(tmpdir, '$PYCTR_C10_DIR')
+                os.makedirs(odd, exist_ok=True)
+                for name in os.listdir(tmpdir):
+                    if os.path.isfile(os.path.join(tmpdir, name)):
+                        shutil.copy(os.path.join(tmpdir, name), os.path.join(odd, name))
+                        os.remove(os.path.join(tmpdir, name))
+                ctx.stat('cdn_dollar_directory')
+                try:
+                    r = CDNReader(os.path.join(odd, 'tmd'), **kw)
+                except Exception as ex:
+                    ctx.diff('oracle', 'cdn-open-raises', dict(case, directory='$PYCTR_C10_DIR'), 'a reader', pyenv.errname(ex) + ': ' + str(ex)[:80],
+                             'CDN directory whose name contains a "$" (with an environment variable of that name set) not opened as spelled')
+                    return
+                finally:
+                    os.environ.pop('PYCTR_C10_DIR', None)
+                what = 'cdn'
+                mode_done = True
+            else:
+                mode_done = False
             try:
-                if case['backend'] == 'os' and rng.random() < 0.5:
+                if mode_done:
+                    pass
+                elif case['backend'] == 'os' and rng.random() < 0.5:
                     r = CDNReader(os.path.join(tmpdir, tmdpath), **kw)
                 else:
                     r = CDNReader(tmdpath, fs=fsobj, **kw)
